@@ -97,10 +97,13 @@ def cmap_fmt12(mapping):
     return be('HHIII', 12, 0, 16 + 12 * len(groups), 0, len(groups)) + b''.join(be('III', *g) for g in groups)
 
 
-def build_cmap(mapping, with12=False, use_array=False, records=None):
+def build_cmap(mapping, with12=False, use_array=False, records=None, extra12=None):
     bmp = {c: g for c, g in mapping.items() if c <= 0xFFFF}
     subs = [(3, 1, cmap_fmt4(bmp, use_array))]
-    if with12: subs.append((3, 10, cmap_fmt12({c: g for c, g in mapping.items() if c > 0xFFFF} or {0x10000: 0})))
+    if with12:
+        m12 = {c: g for c, g in mapping.items() if c > 0xFFFF} or {0x10000: 0}
+        if extra12: m12.update(extra12)          # entries (also BMP ones) that only the format-12 subtable has
+        subs.append((3, 10, cmap_fmt12(m12)))
     if records: subs = records
     hdr = be('HH', 0, len(subs)); off = 4 + 8 * len(subs); recs = b''; data = b''
     for p, e, s in subs:
@@ -455,7 +458,7 @@ def build_tables(F, fieldmap=None):
     glat, gloc = build_glat_gloc(glyphs, num_attrs, F.get('glat_version', 1), F.get('gloc_long', False), F.get('extra_attr_glyphs', 0))
     silf = build_silf(F['silf'], ng + F.get('extra_attr_glyphs', 0), fieldmap)
     tables = {b'head': head, b'hhea': hhea, b'maxp': maxp, b'hmtx': hmtx,
-              b'cmap': build_cmap(F['cmap'], F.get('cmap12', False), F.get('cmap_array', False)), b'Silf': silf, b'Glat': glat, b'Gloc': gloc}
+              b'cmap': build_cmap(F['cmap'], F.get('cmap12', False), F.get('cmap_array', False), extra12=F.get('cmap12_extra')), b'Silf': silf, b'Glat': glat, b'Gloc': gloc}
     if F.get('glyf'):
         # simple glyf/loca: each glyph gets a header-only outline with its bbox
         glyf = b''; loca = [0]
